@@ -219,6 +219,7 @@ void vh_mk_reset(void) { shared_parent = NULL; shared_used = 0; }
 
 mzd_t *vh_mk(rci_t m, rci_t n, int force) {
   int win = force < 0 ? vh_views : force;
+  if (win == 2) win = vh_randint(0, 1);   /* mixed mode: each operand independently an owner or a window */
   if (!win) return vh_new(m, n);
   static const int r0s[] = {0, 0, 1, 5};
   static const int w0s[] = {0, 1, 1, 2, 3};
